@@ -70,6 +70,11 @@ def showFile : Option Bytes → String
 def parseFile (s : String) : Option (Option Bytes) :=
   if s == "~" then some none else (hexDecode s).map some
 
+/-- What `DNSFilter.load` computes from the stored file. -/
+def reparse : Option Bytes → String
+  | none => "0\t0"
+  | some out => let r := parse out true; toString r.st.count ++ "\t" ++ toString r.st.crc
+
 def stepReset (ins : List String) : Option (St × String) := do
   match ins with
   | n :: rest =>
@@ -82,7 +87,7 @@ def stepReset (ins : List String) : Option (St × String) := do
           let e ← parseBool e
           let tlr ← go tl
           -- a local-file list has a path, never equal to an HTTP URL: mark it
-          pure (⟨⟨⟨e, 0, 0, none⟩, a, none⟩, ⟨0, 0, none, 0, false⟩, (if src == "L" then 1 else 0, 0)⟩ :: tlr)
+          pure (⟨⟨⟨e, 0, 0, none⟩, a, none⟩, ⟨0, 0, none, 0, false, 0, 0⟩, (if src == "L" then 1 else 0, 0)⟩ :: tlr)
         | [] => some []
         | _ => none
       let st ← go rest
@@ -90,20 +95,31 @@ def stepReset (ins : List String) : Option (St × String) := do
       pure (st, verdict true none "ok")
   | _ => none
 
+/-- `B` = 200 with this body; `F` = transfer failure / 404 / 500 / missing file;
+`S<code>` = that status with this body and no redirect (only 200 is a download);
+`R<code>` = a redirect with `Location` that the client follows to a 200 with this body. -/
+def fetchOf (kind : String) (data : Bytes) (complete : Bool) : Option Fetch :=
+  if kind == "F" then some Fetch.fail
+  else if kind == "B" then some (Fetch.body data complete)
+  else if kind.startsWith "S" then
+    (if kind == "S200" then some (Fetch.body data complete) else some Fetch.fail)
+  else if kind.startsWith "R" then some (Fetch.body data complete)
+  else none
+
 def parseInputs : List String → Option (List (Bool × Fetch))
   | due :: kind :: data :: complete :: tl => do
     let due ← parseBool due
     let data ← hexDecode data
     let complete ← parseBool complete
-    let f ← (if kind == "F" then some Fetch.fail else if kind == "B" then some (Fetch.body data complete) else none)
+    let f ← fetchOf kind data complete
     let r ← parseInputs tl
     pure ((due, f) :: r)
   | [] => some []
   | _ => none
 
 def parseObsList : List String → Option (List ListObs)
-  | cnt :: ck :: file :: mask :: rw :: tl => do
-    let o : ListObs := ⟨← cnt.toNat?, ← ck.toNat?, ← parseFile file, ← mask.toNat?, ← parseBool rw⟩
+  | cnt :: ck :: file :: mask :: rw :: rc :: rk :: tl => do
+    let o : ListObs := ⟨← cnt.toNat?, ← ck.toNat?, ← parseFile file, ← mask.toNat?, ← parseBool rw, ← rc.toNat?, ← rk.toNat?⟩
     let r ← parseObsList tl
     pure (o :: r)
   | [] => some []
@@ -124,7 +140,7 @@ def stepRefresh (st : St) (ins impl : List String) : Option (St × String) := do
         let inp ← inputs[i]?
         let rew := attempted rq old inp.1 && (updateIntl old.flt.checksum inp.2).isSome
         pure ("\t".intercalate [toString new.flt.count, toString new.flt.checksum, showFile new.flt.file,
-          toString (maskOf i new.inForce), if rew then "1" else "0"])
+          toString (maskOf i new.inForce), if rew then "1" else "0", reparse new.flt.file])
       let m := "\t".intercalate rows
       let agree := m == "\t".intercalate impl
       match parseObsList impl with
@@ -153,7 +169,7 @@ def stepSetURL (st : St) (ins impl : List String) : Option (St × String) := do
     let en ← parseBool en
     let data ← hexDecode data
     let complete ← parseBool complete
-    let f ← (if kind == "F" then some Fetch.fail else if kind == "B" then some (Fetch.body data complete) else none)
+    let f ← fetchOf kind data complete
     let d ← st[i]?
     let changed := newURL != d.url
     let dup := (List.range st.length).any fun x => x != i && ((st[x]?).map (·.url) == some newURL)
@@ -165,7 +181,7 @@ def stepSetURL (st : St) (ins impl : List String) : Option (St × String) := do
       let new ← ls'[x]?
       let rew := x == i && (match res with | .ok true => (updateIntl (if changed then 0 else d.l.flt.checksum) f).isSome && en | _ => false)
       pure ("\t".intercalate [toString new.flt.count, toString new.flt.checksum, showFile new.flt.file,
-        toString (maskOf x new.inForce), if rew then "1" else "0"])
+        toString (maskOf x new.inForce), if rew then "1" else "0", reparse new.flt.file])
     let m := "\t".intercalate ((if okS then "200" else "400") :: (if o.urlChanged then "1" else "0") :: rows)
     let agree := m == "\t".intercalate impl
     match impl with
